@@ -5,6 +5,7 @@
 import FontcProofs.FeaSimRun
 import FontcProofs.FeaSubst
 import FontcProofs.FeaGlue
+import FontcProofs.FeaLig
 
 namespace Fontc.FeaCompile
 open Cmp
@@ -103,16 +104,53 @@ theorem map_run_step_correct (fx : Fixes) (root : Nat) (named : String → Looku
       simp at hst; subst hst; intros; rfl
   | _ => simp [Kind.isMapGsub] at hmap
 
+/-- a run of ligature rules -/
+theorem lig_run_step_correct (fx : Fixes) (root : Nat) (named : String → LookupId) (rules : List Rule)
+    (hne : rules ≠ []) (hk : ∀ r ∈ rules, r.kind = .ligature)
+    (hnd : (rules.flatMap Wf.ligSeqs).Nodup) (hcomp : ∀ r ∈ rules, ∀ ts x, r = Rule.ligature ts x → ts ≠ [])
+    (gdefSrc : List (Glyph × Nat)) (env : String → Option Src.Lookup) (f : Flag) (name : Option String)
+    (gdef : OT.Gdef) (cf : CFlag) (hign : ∀ g, OT.ignored gdef cf.1 cf.2 g = Src.ignored gdefSrc f g)
+    (alt : Nat) (lookups : List OT.Lookup) (d : Nat) (rev : List Glyph) (g : Glyph) (suf : List Glyph) :
+    OT.lookupStep gdef alt lookups d (buildLookup cf (rules.foldl (Builder.add fx root named) (Builder.new .ligature))) rev g suf
+      = Src.lookupStep gdefSrc alt env ⟨name, f, rules⟩ rev g suf := by
+  have hchain : Src.Lookup.isChain ⟨name, f, rules⟩ = false := by
+    simp only [Src.Lookup.isChain, any_kind_of_homogeneous rules .ligature .chain hne hk]; rfl
+  have hlig : Src.Lookup.isLig ⟨name, f, rules⟩ = true := by
+    simp only [Src.Lookup.isLig, any_kind_of_homogeneous rules .ligature .ligature hne hk]; rfl
+  simp only [Src.lookupStep, hchain, Src.simpleStep, hlig, Bool.false_eq_true, ↓reduceIte]
+  rw [lookupStep_simple]
+  · have hfun : OT.Lookup.ign gdef (buildLookup cf (rules.foldl (Builder.add fx root named) (Builder.new .ligature)))
+        = Src.ignored gdefSrc f := by
+      funext y; simp only [OT.Lookup.ign, buildLookup]; exact hign y
+    rw [hfun]
+    simp only [buildLookup]
+    exact lig_lookup_correct fx root named rules hk hnd hcomp _ alt rev g suf
+  · intro st hst
+    simp only [buildLookup, Builder.new, foldl_add_ligature fx root named rules hk, buildSubtables] at hst
+    split at hst
+    · simp at hst
+    · simp [buildLig] at hst; subst hst; intros; rfl
+
+/-- a substitution lookup of the source for which the per-lookup correctness is proved -/
+def GsubRunOk (rules : List Rule) : Prop :=
+  ((headKind rules).isMapGsub = true ∧ (rules.flatMap Wf.targets).Nodup) ∨
+  (headKind rules = .ligature ∧ (rules.flatMap Wf.ligSeqs).Nodup ∧
+    ∀ r ∈ rules, ∀ ts x, r = Rule.ligature ts x → ts ≠ [])
+
+/-- a positioning lookup of the source for which the per-lookup correctness is proved -/
+def GposRunOk (rules : List Rule) : Prop :=
+  headKind rules = .spos ∧ (rules.flatMap Wf.targets).Nodup
+
 theorem builtLookups_nonchain (cf : CFlag) (b : Builder) (h : b.kind ≠ .chain) : builtLookups cf b = [buildLookup cf b] := by
   cases b <;> simp_all [builtLookups, Builder.kind]
 
-/-- **A substitution run at its id** (single / multiple / alternate): the table lookup does to
-    every string what the source lookup does. -/
+/-- **A substitution run at its id** (single / multiple / alternate / ligature): the table lookup
+    does to every string what the source lookup does. -/
 theorem run_applyGsub_correct (fx : Fixes) (gdefSrc : List (Glyph × Nat)) (aIds fIds : List (List Glyph))
     (f : Flag) (rules : List Rule) (n : Nat) (ls : List OT.Lookup) (t : OT.Tables)
     (hc : CompiledRun fx aIds fIds f rules (.gsub n) ls) (hp : Placed t.gsub.lookups t.gpos.lookups (.gsub n) ls)
     (hgdef : t.gdef = gdefOf gdefSrc aIds fIds)
-    (hmap : (headKind rules).isMapGsub = true) (hnd : (rules.flatMap Wf.targets).Nodup)
+    (hok : GsubRunOk rules)
     (hg : (gdefSrc.map (·.1)).Nodup) (ha : (aIds.flatMap id).Nodup)
     (alt : Nat) (env : String → Option Src.Lookup) (name : Option String) :
     ∃ L, t.gsub.lookups[n]? = some L ∧
@@ -120,18 +158,25 @@ theorem run_applyGsub_correct (fx : Fixes) (gdefSrc : List (Glyph × Nat)) (aIds
   obtain ⟨hne, hk, _, cf, named, root, hcf, _, hls⟩ := hc
   have hkind : (rules.foldl (Builder.add fx root named) (Builder.new (headKind rules))).kind ≠ .chain := by
     rw [Builder.foldl_add_kind, Builder.new_kind]
-    intro e; rw [e] at hmap; simp [Kind.isMapGsub] at hmap
+    rcases hok with ⟨hmap, _⟩ | ⟨hl, _⟩
+    · intro e; rw [e] at hmap; simp [Kind.isMapGsub] at hmap
+    · rw [hl]; simp
   rw [builtLookups_nonchain cf _ hkind] at hls
   subst hls
   refine ⟨_, hp.head, fun str => ?_⟩
+  have hign : ∀ g, OT.ignored t.gdef cf.1 cf.2 g = Src.ignored gdefSrc f g := by
+    intro g; rw [hgdef]; exact ignored_correct gdefSrc aIds fIds cf f hg ha hcf g
   simp only [OT.applyGsub, Src.applyGsub]
   rw [OT.pass_eq_src]
   apply Src.pass_congr
   · intro g
-    simp only [OT.Lookup.ign, buildLookup, hgdef]
-    exact ignored_correct gdefSrc aIds fIds cf f hg ha hcf g
+    simp only [OT.Lookup.ign, buildLookup]
+    exact hign g
   · intro rev g suf
-    exact map_run_step_correct fx root named rules (headKind rules) hne hk hmap hnd gdefSrc env f name t.gdef cf alt _ _ rev g suf
+    rcases hok with ⟨hmap, hnd⟩ | ⟨hl, hnd, hcomp⟩
+    · exact map_run_step_correct fx root named rules (headKind rules) hne hk hmap hnd gdefSrc env f name t.gdef cf alt _ _ rev g suf
+    · rw [hl] at hk ⊢
+      exact lig_run_step_correct fx root named rules hne hk hnd hcomp gdefSrc env f name t.gdef cf hign alt _ _ rev g suf
 
 /-- **A single-positioning run at its id.** -/
 theorem run_applyGpos_correct (fx : Fixes) (gdefSrc : List (Glyph × Nat)) (aIds fIds : List (List Glyph))
@@ -162,5 +207,30 @@ theorem run_applyGpos_correct (fx : Fixes) (gdefSrc : List (Glyph × Nat)) (aIds
       | cons r rs => simp [Src.Lookup.kind, hk r (by simp)]
     simp only [Src.posStep, hsk, OT.posLookupStep, buildLookup]
     exact spos_lookup_correct fx root named rules hk hnd _ rev x suf
+
+/-! a decidable form of the per-lookup conditions -/
+
+def ligHasComps : Rule → Bool
+  | .ligature [] _ => false
+  | _ => true
+
+/-- the lookup is of a type, and satisfies the conditions, for which correctness is proved -/
+def runOkB (rules : List Rule) : Bool :=
+  ((headKind rules).isMapGsub && decide (rules.flatMap Wf.targets).Nodup)
+  || (headKind rules == .ligature && decide (rules.flatMap Wf.ligSeqs).Nodup && rules.all ligHasComps)
+  || (headKind rules == .spos && decide (rules.flatMap Wf.targets).Nodup)
+
+theorem runOk_of_runOkB (rules : List Rule) (h : runOkB rules = true) : GsubRunOk rules ∨ GposRunOk rules := by
+  simp only [runOkB, Bool.or_eq_true, Bool.and_eq_true, decide_eq_true_eq, beq_iff_eq, List.all_eq_true] at h
+  rcases h with (⟨h1, h2⟩ | ⟨⟨h1, h2⟩, h3⟩) | ⟨h1, h2⟩
+  · exact Or.inl (Or.inl ⟨h1, h2⟩)
+  · refine Or.inl (Or.inr ⟨h1, h2, ?_⟩)
+    intro r hr ts x e
+    have := h3 r hr
+    subst e
+    cases ts with
+    | nil => simp [ligHasComps] at this
+    | cons _ _ => simp
+  · exact Or.inr ⟨h1, h2⟩
 
 end Fontc.FeaCompile
